@@ -149,7 +149,11 @@ where
     pub fn new(target: D, proposal: Q, initial_states: Vec<Vec<S>>) -> Self {
         let chains = initial_states
             .into_iter()
-            .map(|s| MHMarkovChain::new(target.clone(), proposal.clone(), s))
+            .map(|s| {
+                // Every chain gets its own proposal stream (a plain clone would share the generator state).
+                let chain_proposal = proposal.clone().set_seed(rand::random::<u64>());
+                MHMarkovChain::new(target.clone(), chain_proposal, s)
+            })
             .collect();
         Self {
             target,
@@ -187,7 +191,12 @@ where
     pub fn seed(mut self, seed: u64) -> Self {
         for (i, chain) in self.chains.iter_mut().enumerate() {
             let chain_seed = seed.wrapping_add(1).wrapping_add(i as u64);
-            chain.rng = SmallRng::seed_from_u64(chain_seed)
+            chain.rng = SmallRng::seed_from_u64(chain_seed);
+            // The proposal stream is re-seeded too: distinct per chain and from the acceptance stream.
+            chain.proposal = chain
+                .proposal
+                .clone()
+                .set_seed(chain_seed ^ 0x9E37_79B9_7F4A_7C15);
         }
         self
     }
